@@ -56,6 +56,13 @@ def models(tier):
     cfg["apps"][0]["peers"] = [0, 1]
     out.append(monitors.ScenarioModel("other-peer-on-a-reused-descriptor", cfg, alpha1, MONS, max_socks=2,
                                       prelude=[("accept",), ("m", 0, "cer_p0"), ("tick", 1), ("eof", 0), ("accept",), ("m", 1, "cer_p1")], deviations=dev1))
+    # two watchdog requests of the peer in one network read (both must be answered, each with its own identifiers), and the application
+    # sending a request of its own between the node's DWR and the peer's DWA (which is still that DWR's answer)
+    cfg = base(3, 2, 1)
+    alpha3 = [("tick", 1), ("b", 0, "dwr", "dwr"), ("send", 0, "own"), ("m", 0, "dwa"), ("m", 0, "ans"), ("m", 0, "dwr")]
+    dev3 = {e: (0 if e == ("tick", 1) else 1) for e in alpha3}
+    out.append(monitors.ScenarioModel("bursts-and-own-requests-around-the-watchdog", cfg, alpha3, MONS, max_socks=1,
+                                      prelude=[("accept",), ("m", 0, "cer_p0")], deviations=dev3, app_timeout=1))
     # two connections: traffic for the other connection (also more than one recv() worth) reaches the node in the very instant in
     # which this connection's idle timeout or DWA timeout expires, so the timers are looked at in consecutive passes of the I/O loop
     cfg = base(3, 2, 1)
